@@ -26,6 +26,7 @@ type c18Case struct {
 	W           wireCase `json:"w"`
 	Constructed bool     `json:"constructed"` // message built and signed in memory instead of decoded
 	KeyIdx      int      `json:"key_idx"`     // index into zeroCoordScalars (EC2 key with a short coordinate); -1 Ed25519
+	DropMaps    bool     `json:"drop_maps,omitempty"` // decoded message whose Protected maps are nil (only the raw bytes are kept), as in a struct-literal message
 	G           int      `json:"g"`
 	Plan        [][]int  `json:"plan"` // per goroutine: indices into the operation list
 }
@@ -60,6 +61,14 @@ func c18Build(c *c18Case) (shared []any, ops []c18Op, err error) {
 		}
 		if spec.Detached {
 			*m.payload() = append([]byte{}, spec.Payload...)
+		}
+		if c.DropMaps {
+			m.headers().Protected = nil
+			if m.sm != nil {
+				for _, sg := range m.sm.Signatures {
+					sg.Headers.Protected = nil
+				}
+			}
 		}
 	}
 	var vs []cose.Verifier
@@ -283,6 +292,8 @@ func checkC18(c c18Case) error {
 	kind := "decoded"
 	if c.Constructed {
 		kind = "constructed"
+	} else if c.DropMaps {
+		kind = "raw-only"
 	}
 	stats.Class("shared/" + kind + "/" + c.W.Spec.Kind.String())
 	stats.Class(fmt.Sprintf("goroutines/%s", map[bool]string{true: ">=8", false: "<8"}[c.G >= 8]))
@@ -351,6 +362,7 @@ func genC18Case(t *rapid.T) c18Case {
 	o.MaxSigners = 3
 	wc, _ := genWireCase(t, o, true)
 	c := c18Case{W: wc, Constructed: rapid.IntRange(0, 3).Draw(t, "constructed") == 0, KeyIdx: rapid.IntRange(-1, len(zeroCoordScalars)-1).Draw(t, "key")}
+	c.DropMaps = !c.Constructed && rapid.IntRange(0, 3).Draw(t, "drop-maps") == 0
 	c.G = rapid.SampledFrom([]int{2, 3, 4, 8, 8, 16, 16, 32}).Draw(t, "goroutines")
 	np := rapid.IntRange(1, 4).Draw(t, "nplans")
 	for i := 0; i < np; i++ {
